@@ -1,12 +1,16 @@
 package main
 
 import (
+	"bytes"
+	"encoding/binary"
 	"encoding/json"
 	"fmt"
+	"hash/fnv"
 	"math/rand"
 	"os"
 	"os/exec"
 	"path/filepath"
+	"sort"
 	"strings"
 	"time"
 
@@ -54,6 +58,7 @@ func formatEngine() {
 		rep.violation("C12", "correspondence", "golden-corpus-missing", "no golden corpus at "+goldenDir, nil)
 	}
 	for _, g := range recs {
+		inFlight("format", map[string]any{"golden": g.File})
 		src := filepath.Join(goldenDir, g.File)
 		tmp := filepath.Join(dir, g.File)
 		_ = copyFile(tmp, src)
@@ -85,6 +90,9 @@ func formatEngine() {
 		}
 		rep.count("golden")
 	}
+	inFlight("format", map[string]any{"case": "hand-assembled file with a freelist of more than 65534 entries"})
+	largeFreelistCase(rep, dir)
+	inFlight("format", nil)
 	// (2) fresh files: re-encode every page from its decoded form
 	n := 25
 	if *flagTier == "thorough" {
@@ -173,4 +181,153 @@ func genGolden(dir string) {
 	b, _ := json.MarshalIndent(recs, "", " ")
 	_ = os.WriteFile(filepath.Join(goldenDir, "expected.json"), b, 0o644)
 	fmt.Println("wrote", len(recs), "golden files")
+}
+
+
+// largeFreelistCase: the published format stores a freelist of 0xFFFF or more entries with
+// count = 0xFFFF and the real count in the first 8-byte slot.  A hand-assembled version-2 file
+// (written by this harness, not by the library) with 70000 free ids must be read exactly by the
+// library (both backends) and by the Lean reader; after the library has rewritten the freelist
+// the Lean reader must again find exact accounting and the same ids as the library reloads.
+func largeFreelistCase(rep *Report, dir string) {
+	const ps, n = 1024, 70000
+	le := binary.LittleEndian
+	span := (16 + 8*(n+1) + ps - 1) / ps
+	first := uint64(3 + span)
+	hwm := first + n
+	img := make([]byte, (3+span)*ps)
+	for i := 0; i < 2; i++ {
+		b := img[i*ps:]
+		le.PutUint64(b[0:], uint64(i))
+		le.PutUint16(b[8:], 0x04)
+		m := b[16:]
+		le.PutUint32(m[0:], 0xED0CDAED)
+		le.PutUint32(m[4:], 2)
+		le.PutUint32(m[8:], ps)
+		le.PutUint64(m[16:], 2) // root bucket: root page
+		le.PutUint64(m[32:], 3) // freelist page
+		le.PutUint64(m[40:], hwm)
+		le.PutUint64(m[48:], uint64(i))
+		h := fnv.New64a()
+		_, _ = h.Write(m[:56])
+		le.PutUint64(m[56:], h.Sum64())
+	}
+	le.PutUint64(img[2*ps:], 2)
+	le.PutUint16(img[2*ps+8:], 0x02)
+	fl := img[3*ps:]
+	le.PutUint64(fl[0:], 3)
+	le.PutUint16(fl[8:], 0x10)
+	le.PutUint16(fl[10:], 0xFFFF)
+	le.PutUint32(fl[12:], uint32(span-1))
+	le.PutUint64(fl[16:], n)
+	for i := 0; i < n; i++ {
+		le.PutUint64(fl[24+8*i:], first+uint64(i))
+	}
+	path := filepath.Join(dir, "bigfreelist.db")
+	if err := os.WriteFile(path, img, 0o600); err != nil {
+		return
+	}
+	_ = os.Truncate(path, int64(hwm)*ps) // sparse: the free pages hold nothing
+	defer os.Remove(path)
+	rp := map[string]any{"case": "hand-assembled v2 file", "page_size": ps, "free_ids": n, "first_free": first, "freelist_page": 3}
+	rep.Programs++
+	rep.count("large-freelist")
+	sameIDs := func(ids []uint64) string {
+		if len(ids) != n {
+			return fmt.Sprintf("%d ids instead of %d", len(ids), n)
+		}
+		for i, id := range ids {
+			if id != first+uint64(i) {
+				return fmt.Sprintf("id[%d] = %d instead of %d", i, id, first+uint64(i))
+			}
+		}
+		return ""
+	}
+	// the Lean reader on the hand-made file
+	if *flagModel != "" {
+		dec, ok := leanDecode(path)
+		rep.Evaluations++
+		if !ok || len(dec) < 7 {
+			rep.violation("C12", "correspondence", "large-freelist:lean-reader-fails", fmt.Sprintf("the independent reader cannot decode the hand-assembled file: %v", truncate(fmt.Sprint(dec), 200)), rp)
+		} else if d := sameIDs(parseU64s(strings.TrimPrefix(dec[4], "free "))); d != "" || !strings.HasPrefix(dec[5], "accounting ok=true") {
+			rep.violation("C12", "correspondence", "large-freelist:lean-reader-differs", fmt.Sprintf("the independent reader on the hand-assembled file: %s; %s", d, truncate(dec[5], 160)), rp)
+		}
+	}
+	// the library on the hand-made file, both backends
+	for _, kind := range []bolt.FreelistType{bolt.FreelistArrayType, bolt.FreelistMapType} {
+		db, err := bolt.Open(path, 0o600, &bolt.Options{FreelistType: kind, Timeout: time.Second})
+		rep.Evaluations++
+		if err != nil {
+			rep.violation("C12", "monitor", "large-freelist:open-fails", fmt.Sprintf("a version-2 file with %d free ids does not open (%s): %v", n, kind, err), rp)
+			continue
+		}
+		free, _ := db.VerifFreelistState()
+		sort.Slice(free, func(a, b int) bool { return free[a] < free[b] })
+		if d := sameIDs(free); d != "" {
+			rep.violation("C12", "monitor", "large-freelist:read-differs", fmt.Sprintf("a version-2 file lists %d free pages (%d..%d); the library (%s) loaded %s", n, first, hwm-1, kind, d), rp)
+		}
+		var bad string
+		_ = db.View(func(tx *bolt.Tx) error {
+			for e := range tx.Check() {
+				bad = e.Error()
+				break
+			}
+			return nil
+		})
+		if bad != "" {
+			rep.violation("C12", "monitor", "large-freelist:check-fails", fmt.Sprintf("Tx.Check on the intact version-2 file (%s): %s", kind, bad), rp)
+		}
+		_ = db.Close()
+	}
+	// the library rewrites the freelist (still more than 65534 entries); the Lean reader reads it back
+	db, err := bolt.Open(path, 0o600, &bolt.Options{Timeout: time.Second})
+	if err != nil {
+		return
+	}
+	err = db.Update(func(tx *bolt.Tx) error {
+		b, err := tx.CreateBucketIfNotExists([]byte("b"))
+		if err != nil {
+			return err
+		}
+		return b.Put([]byte("k"), bytes.Repeat([]byte("v"), 3000))
+	})
+	_ = db.Close()
+	rep.Evaluations++
+	if err != nil {
+		rep.violation("C12", "monitor", "large-freelist:commit-fails", fmt.Sprintf("a commit on the file with %d free ids fails: %v", n, err), rp)
+		return
+	}
+	db, err = bolt.Open(path, 0o600, &bolt.Options{ReadOnly: true, PreLoadFreelist: true, Timeout: time.Second})
+	if err != nil {
+		rep.violation("C12", "monitor", "large-freelist:reopen-fails", fmt.Sprintf("reopen after the commit fails: %v", err), rp)
+		return
+	}
+	free, _ := db.VerifFreelistState()
+	sort.Slice(free, func(a, b int) bool { return free[a] < free[b] })
+	_ = db.Close()
+	if *flagModel != "" {
+		dec, ok := leanDecode(path)
+		rep.Evaluations++
+		if !ok || len(dec) < 7 {
+			rep.violation("C12", "monitor", "large-freelist:written-undecodable", fmt.Sprintf("the independent reader cannot decode the freelist the library wrote: %v", truncate(fmt.Sprint(dec), 200)), rp)
+			return
+		}
+		lean := parseU64s(strings.TrimPrefix(dec[4], "free "))
+		if !strings.HasPrefix(dec[5], "accounting ok=true") || dec[6] != "errors -" {
+			rep.violation("C12", "monitor", "large-freelist:written-accounting", fmt.Sprintf("independent reader on the file the library wrote (freelist of %d entries): %s %s", len(lean), truncate(dec[5], 200), truncate(dec[6], 100)), rp)
+		}
+		if len(lean) != len(free) {
+			rep.violation("C12", "monitor", "large-freelist:written-differs", fmt.Sprintf("the freelist page the library wrote holds %d ids for a version-2 reader, the library reloads %d", len(lean), len(free)), rp)
+		} else {
+			for i := range lean {
+				if lean[i] != free[i] {
+					rep.violation("C12", "monitor", "large-freelist:written-differs", fmt.Sprintf("id[%d]: version-2 reader %d, library %d", i, lean[i], free[i]), rp)
+					break
+				}
+			}
+		}
+		if len(free) < 0xFFFF {
+			rep.Notes = append(rep.Notes, fmt.Sprintf("large-freelist: only %d ids after the rewrite (overflow encoding not exercised on the write side)", len(free)))
+		}
+	}
 }
